@@ -273,18 +273,22 @@ theorem spec_graphOf_node (hwf : rankWF u = true) {d : Dyn} {n : Node} {x : Item
   show evalD u cfg d immune limited pen n _ = _
   unfold evalD; rw [hx, ham]
 
-/-- Core induction along the rank order.  `hz`: no division by zero, either as "the table has no `divZero`
-entry" or as "no settled calculation yields `divZero`". -/
-theorem settled_core (hb : ∀ e ∈ u.effects, e.isBuff = false) (hwf : rankWF u = true) (hun : UniqueAttrs u)
-    (hc : UniqueIds cfg)
+/-- Core induction along the rank order, for any dynamic state `d` whose calculation `valueOfD` is the
+specification's `valueOf` under the readers of the table's prefixes (`hval`).  `hz`: no division by zero,
+either as "the table has no `divZero` entry" or as "no calculation of the state yields `divZero`". -/
+theorem settled_core_gen {d : Dyn} (hwf : rankWF u = true) (hun : UniqueAttrs u) (hc : UniqueIds cfg)
+    (hval : ∀ pre am post, u.attrs = pre ++ am :: post →
+      (∀ y a, readDep u (pre.foldl (tblStep u cfg immune limited pen) []) y a ≠ .divZero) → ∀ x ∈ cfg.items,
+      valueOfD u cfg d immune limited pen (readDep u (pre.foldl (tblStep u cfg immune limited pen) [])) x am =
+        valueOf u cfg immune limited pen (readDep u (pre.foldl (tblStep u cfg immune limited pen) [])) x am)
     (hz : (∀ entry ∈ evalAll u cfg immune limited pen, entry.2 ≠ .divZero) ∨
-      (∀ x ∈ cfg.items, ∀ am ∈ u.attrs, valueOfD u cfg (derivedDyn u cfg) immune limited pen
-        (readerOf u (spec (graphOf u immune limited pen hwf (cfg, derivedDyn u cfg)))) x am ≠ .divZero)) :
+      (∀ x ∈ cfg.items, ∀ am ∈ u.attrs, valueOfD u cfg (d) immune limited pen
+        (readerOf u (spec (graphOf u immune limited pen hwf (cfg, d)))) x am ≠ .divZero)) :
     ∀ (k : Nat) (pre : List AttrMeta) (am : AttrMeta) (post : List AttrMeta), u.attrs = pre ++ am :: post →
       pre.length = k → ∀ x ∈ cfg.items,
       valueOf u cfg immune limited pen (readDep u (pre.foldl (tblStep u cfg immune limited pen) [])) x am =
-        valueOfD u cfg (derivedDyn u cfg) immune limited pen
-          (readerOf u (spec (graphOf u immune limited pen hwf (cfg, derivedDyn u cfg)))) x am ∧
+        valueOfD u cfg (d) immune limited pen
+          (readerOf u (spec (graphOf u immune limited pen hwf (cfg, d)))) x am ∧
       valueOf u cfg immune limited pen (readDep u (pre.foldl (tblStep u cfg immune limited pen) [])) x am ≠
         .divZero := by
   intro k
@@ -297,8 +301,8 @@ theorem settled_core (hb : ∀ e ∈ u.effects, e.isBuff = false) (hwf : rankWF 
     -- entries of the table of `pre`, through the induction hypothesis
     have hpre : ∀ p1 amb p2, pre = p1 ++ amb :: p2 → ∀ y ∈ cfg.items,
         valueOf u cfg immune limited pen (readDep u (p1.foldl (tblStep u cfg immune limited pen) [])) y amb =
-          valueOfD u cfg (derivedDyn u cfg) immune limited pen
-            (readerOf u (spec (graphOf u immune limited pen hwf (cfg, derivedDyn u cfg)))) y amb ∧
+          valueOfD u cfg (d) immune limited pen
+            (readerOf u (spec (graphOf u immune limited pen hwf (cfg, d)))) y amb ∧
         valueOf u cfg immune limited pen (readDep u (p1.foldl (tblStep u cfg immune limited pen) [])) y amb ≠
           .divZero := by
       intro p1 amb p2 hp y hy
@@ -323,7 +327,7 @@ theorem settled_core (hb : ∀ e ∈ u.effects, e.isBuff = false) (hwf : rankWF 
       attrMeta?_of_mem hun (by rw [hsplit]; exact List.mem_append_right _ List.mem_cons_self)
     have agree : ∀ y ∈ cfg.items, ∀ b ∈ readable u am,
         readDep u (pre.foldl (tblStep u cfg immune limited pen) []) y b =
-          readerOf u (spec (graphOf u immune limited pen hwf (cfg, derivedDyn u cfg))) y b := by
+          readerOf u (spec (graphOf u immune limited pen hwf (cfg, d))) y b := by
       intro y hy b hb'
       by_cases hov : (y.kind == .skill && b == 280) = true
       · unfold readDep readerOf; rw [if_pos hov, if_pos hov]; rfl
@@ -354,7 +358,7 @@ theorem settled_core (hb : ∀ e ∈ u.effects, e.isBuff = false) (hwf : rankWF 
           obtain ⟨heq, hnz⟩ := hpre p1 amb' p2 hp y hy
           have hget := tbl_get (u := u) (immune := immune) (limited := limited) (pen := pen) hc hp hpren hy
           have hnode := spec_graphOf_node (immune := immune) (limited := limited) (pen := pen) hwf
-            (d := derivedDyn u cfg) (n := (y.id, b)) (item?_of_mem hc hy) hmb
+            (d := d) (n := (y.id, b)) (item?_of_mem hc hy) hmb
           rw [hid] at hget
           have hnn : ¬ ((attrMeta? u b).isNone = true) := by rw [hmb]; simp
           unfold readDep readerOf
@@ -363,25 +367,24 @@ theorem settled_core (hb : ∀ e ∈ u.effects, e.isBuff = false) (hwf : rankWF 
           rw [heq]
           rw [heq] at hnz
           rcases valueOfD_reader (u := u) (cfg := cfg)
-            (readerOf_ok_or_absent (spec (graphOf u immune limited pen hwf (cfg, derivedDyn u cfg))))
-            (derivedDyn u cfg) immune limited pen y amb' with h0 | ⟨⟨v, hv⟩, _⟩ | ⟨ha, _⟩
+            (readerOf_ok_or_absent (spec (graphOf u immune limited pen hwf (cfg, d))))
+            (d) immune limited pen y amb' with h0 | ⟨⟨v, hv⟩, _⟩ | ⟨ha, _⟩
           · exact absurd h0 hnz
           · rw [hv]; rfl
           · rw [ha]; rfl
     have hxid := item?_of_mem hc hx
-    have eq1 := valueOfD_derived_eq hb hc immune limited pen
-      (readDep u (pre.foldl (tblStep u cfg immune limited pen) [])) (fun y a _ _ h _ => hrd y a h) hx am
-    have eq2 : valueOfD u cfg (derivedDyn u cfg) immune limited pen
+    have eq1 := hval pre am post hsplit hrd x hx
+    have eq2 : valueOfD u cfg (d) immune limited pen
         (readDep u (pre.foldl (tblStep u cfg immune limited pen) [])) x am =
-        valueOfD u cfg (derivedDyn u cfg) immune limited pen
-          (readerOf u (spec (graphOf u immune limited pen hwf (cfg, derivedDyn u cfg)))) x am := by
+        valueOfD u cfg (d) immune limited pen
+          (readerOf u (spec (graphOf u immune limited pen hwf (cfg, d)))) x am := by
       refine valueOfD_congr fun hs tx ht => ?_
-      have hread : ∀ m, m ∈ deps u cfg (derivedDyn u cfg) (x.id, am.id) → m.2 ∈ readable u am := by
+      have hread : ∀ m, m ∈ deps u cfg (d) (x.id, am.id) → m.2 ∈ readable u am := by
         intro m hm
         obtain ⟨am', ham', hr⟩ := deps_readable hm
         rw [show attrMeta? u (x.id, am.id).2 = some am from hmeta] at ham'
         cases ham'; exact hr
-      have hdep := @mem_deps_iff u cfg (derivedDyn u cfg) (x.id, am.id)
+      have hdep := @mem_deps_iff u cfg (d) (x.id, am.id)
       refine ⟨fun s hsp => ⟨agree s.a (specsOn_mem hsp).1 _ (hread (s.a.id, s.m.srcAttr) ?_),
         fun c r hr => agree c ?_ r (hread (c.id, r) ?_)⟩, fun mx hmx => agree x hx mx (hread (x.id, mx) ?_)⟩
       · exact (hdep (n' := _) hxid hmeta hs ht).2 (Or.inl ⟨s, hsp, Or.inl rfl⟩)
@@ -396,6 +399,23 @@ theorem settled_core (hb : ∀ e ∈ u.effects, e.isBuff = false) (hwf : rankWF 
       rw [← hv]; exact hz e he
     · rw [heq]; exact hz x hx am (by rw [hsplit]; exact List.mem_append_right _ List.mem_cons_self)
 
+/-- Core induction for the specification's derived state of a universe without buff effects. -/
+theorem settled_core (hb : ∀ e ∈ u.effects, e.isBuff = false) (hwf : rankWF u = true) (hun : UniqueAttrs u)
+    (hc : UniqueIds cfg)
+    (hz : (∀ entry ∈ evalAll u cfg immune limited pen, entry.2 ≠ .divZero) ∨
+      (∀ x ∈ cfg.items, ∀ am ∈ u.attrs, valueOfD u cfg (derivedDyn u cfg) immune limited pen
+        (readerOf u (spec (graphOf u immune limited pen hwf (cfg, derivedDyn u cfg)))) x am ≠ .divZero)) :
+    ∀ (k : Nat) (pre : List AttrMeta) (am : AttrMeta) (post : List AttrMeta), u.attrs = pre ++ am :: post →
+      pre.length = k → ∀ x ∈ cfg.items,
+      valueOf u cfg immune limited pen (readDep u (pre.foldl (tblStep u cfg immune limited pen) [])) x am =
+        valueOfD u cfg (derivedDyn u cfg) immune limited pen
+          (readerOf u (spec (graphOf u immune limited pen hwf (cfg, derivedDyn u cfg)))) x am ∧
+      valueOf u cfg immune limited pen (readDep u (pre.foldl (tblStep u cfg immune limited pen) [])) x am ≠
+        .divZero :=
+  settled_core_gen hwf hun hc
+    (fun pre am _ _ hrd _ hx => valueOfD_derived_eq hb hc immune limited pen
+      (readDep u (pre.foldl (tblStep u cfg immune limited pen) [])) (fun y a _ _ h _ => hrd y a h) hx am) hz
+
 /-- What a public read of the table returns for an attribute with metadata. -/
 theorem read_evalAll (hun : UniqueAttrs u) (hc : UniqueIds cfg) {pre post : List AttrMeta} {am : AttrMeta}
     (hsplit : u.attrs = pre ++ am :: post) {x : Item} (hx : x ∈ cfg.items) :
@@ -407,6 +427,33 @@ theorem read_evalAll (hun : UniqueAttrs u) (hc : UniqueIds cfg) {pre post : List
     rw [valueOf_eq, if_pos hov]; rfl
   · rw [evalAll_eq_foldl, tbl_get hc hsplit hun hx]; rfl
 
+/-- A dynamic state whose calculation is the specification's under the readers of the table's prefixes
+(`hval`) meets the table. -/
+theorem settled_aux_gen {d : Dyn} (hwf : rankWF u = true) (hun : UniqueAttrs u) (hc : UniqueIds cfg)
+    (hval : ∀ pre am post, u.attrs = pre ++ am :: post →
+      (∀ y a, readDep u (pre.foldl (tblStep u cfg immune limited pen) []) y a ≠ .divZero) → ∀ x ∈ cfg.items,
+      valueOfD u cfg d immune limited pen (readDep u (pre.foldl (tblStep u cfg immune limited pen) [])) x am =
+        valueOf u cfg immune limited pen (readDep u (pre.foldl (tblStep u cfg immune limited pen) [])) x am)
+    (hz : (∀ entry ∈ evalAll u cfg immune limited pen, entry.2 ≠ .divZero) ∨
+      ErrorFree u immune limited pen (worldGraph u immune limited pen hwf) cfg (d))
+    {x : Item} (hx : x ∈ cfg.items) {am : AttrMeta} (ham : am ∈ u.attrs) :
+    spec (worldGraph u immune limited pen hwf (cfg, d)) (x.id, am.id) =
+      valToOption (read (evalAll u cfg immune limited pen) x am.id) ∧
+    read (evalAll u cfg immune limited pen) x am.id ≠ .divZero := by
+  obtain ⟨pre, post, hsplit⟩ := List.append_of_mem ham
+  have hz' : (∀ entry ∈ evalAll u cfg immune limited pen, entry.2 ≠ .divZero) ∨
+      (∀ x ∈ cfg.items, ∀ am ∈ u.attrs, valueOfD u cfg (d) immune limited pen
+        (readerOf u (spec (graphOf u immune limited pen hwf (cfg, d)))) x am ≠ .divZero) := by
+    rcases hz with hz | hz
+    · exact Or.inl hz
+    · right; intro y hy amy hamy
+      have := hz y hy amy hamy
+      rwa [spec_worldGraph] at this
+  obtain ⟨heq, hnz⟩ := settled_core_gen hwf hun hc hval hz' pre.length pre am post hsplit rfl x hx
+  rw [read_evalAll hun hc hsplit hx, spec_worldGraph,
+    spec_graphOf_node hwf (n := (x.id, am.id)) (item?_of_mem hc hx) (attrMeta?_of_mem hun ham), heq]
+  exact ⟨rfl, heq ▸ hnz⟩
+
 theorem settled_aux (hb : ∀ e ∈ u.effects, e.isBuff = false) (hwf : rankWF u = true) (hun : UniqueAttrs u)
     (hc : UniqueIds cfg)
     (hz : (∀ entry ∈ evalAll u cfg immune limited pen, entry.2 ≠ .divZero) ∨
@@ -414,20 +461,10 @@ theorem settled_aux (hb : ∀ e ∈ u.effects, e.isBuff = false) (hwf : rankWF u
     {x : Item} (hx : x ∈ cfg.items) {am : AttrMeta} (ham : am ∈ u.attrs) :
     spec (worldGraph u immune limited pen hwf (cfg, derivedDyn u cfg)) (x.id, am.id) =
       valToOption (read (evalAll u cfg immune limited pen) x am.id) ∧
-    read (evalAll u cfg immune limited pen) x am.id ≠ .divZero := by
-  obtain ⟨pre, post, hsplit⟩ := List.append_of_mem ham
-  have hz' : (∀ entry ∈ evalAll u cfg immune limited pen, entry.2 ≠ .divZero) ∨
-      (∀ x ∈ cfg.items, ∀ am ∈ u.attrs, valueOfD u cfg (derivedDyn u cfg) immune limited pen
-        (readerOf u (spec (graphOf u immune limited pen hwf (cfg, derivedDyn u cfg)))) x am ≠ .divZero) := by
-    rcases hz with hz | hz
-    · exact Or.inl hz
-    · right; intro y hy amy hamy
-      have := hz y hy amy hamy
-      rwa [spec_worldGraph] at this
-  obtain ⟨heq, hnz⟩ := settled_core hb hwf hun hc hz' pre.length pre am post hsplit rfl x hx
-  rw [read_evalAll hun hc hsplit hx, spec_worldGraph,
-    spec_graphOf_node hwf (n := (x.id, am.id)) (item?_of_mem hc hx) (attrMeta?_of_mem hun ham), heq]
-  exact ⟨rfl, heq ▸ hnz⟩
+    read (evalAll u cfg immune limited pen) x am.id ≠ .divZero :=
+  settled_aux_gen hwf hun hc
+    (fun pre am _ _ hrd _ hx => valueOfD_derived_eq hb hc immune limited pen
+      (readDep u (pre.foldl (tblStep u cfg immune limited pen) [])) (fun y a _ _ h _ => hrd y a h) hx am) hz hx ham
 
 /-- **Settled states meet the table.**  Universe without buff effects, rank-well-formed, unique attribute
 ids; configuration with unique item ids; no `divZero` entry in the table.  For every configured item and
@@ -536,7 +573,8 @@ theorem settle_solsys : ∀ j ∈ [1], ∀ t, item? settleCfg j = some t → t.k
 /-- The history ends in the settled state of its configuration. -/
 theorem settle_hset : (wrun settleU settleW settleS0 settleHist).dyn = derivedDyn settleU settleCfg := by
   show (⟨fun i => i == 1 || i == 2, fun j e => if j = 2 ∧ e ∈ [1000, 1001] then true else false,
-    fun j f => if j = 2 ∧ f = 1001 then [] ++ [1] else if j = 2 ∧ f = 1000 then [] ++ [1] else []⟩ : Dyn) = ⟨_, _, _⟩
+    fun j f => if j = 2 ∧ f = 1001 then [1] else if j = 2 ∧ f = 1000 then [1] else [], fun _ _ => []⟩ : Dyn) =
+      ⟨_, _, _, _⟩
   congr 1
   · funext i
     by_cases h1 : i = 1
